@@ -537,27 +537,14 @@ impl PendingEntryList {
         count: usize,
         consumer: Option<&str>
     ) -> Vec<PendingEntry> {
-        let iter: Box<dyn Iterator<Item = &PendingEntry>> = if let Some(consumer_name) = consumer {
-            // Filter by consumer
-            if let Some(consumer_ids) = self.entries_by_consumer.get(consumer_name) {
-                Box::new(
-                    consumer_ids.iter()
-                        .filter_map(|id| self.entries_by_id.get(id))
-                )
-            } else {
-                Box::new(std::iter::empty())
-            }
-        } else {
-            // All entries in range
-            let start = start.unwrap_or(StreamId::min());
-            let end = end.unwrap_or(StreamId::max());
-            
-            Box::new(
-                self.entries_by_id
-                    .range(start..=end)
-                    .map(|(_, entry)| entry)
-            )
-        };
+        // The ID range applies with and without a consumer filter, and entries come in ID order
+        let start = start.unwrap_or(StreamId::min());
+        let end = end.unwrap_or(StreamId::max());
+        
+        let iter = self.entries_by_id
+            .range(start..=end)
+            .map(|(_, entry)| entry)
+            .filter(|entry| consumer.map_or(true, |name| entry.consumer == name));
         
         iter.take(count).cloned().collect()
     }
